@@ -150,9 +150,11 @@ def all_subsets(n, lo, hi):
 class LumpSystem:
     """Real code (dense ndarray run and csr_array run in lock-step) + model."""
 
-    def __init__(self, n, kind, merge_pairs=True, alphabet=None):
+    def __init__(self, n, kind, merge_pairs=True, alphabet=None, scale_exp=0):
         self.n, self.kind = n, kind
-        self.M0 = base_matrix(n, kind)
+        self.scale_exp = scale_exp
+        # power-of-two scaling keeps every sum exact; 2**-34 ~ 5.8e-11 puts all entries below absolute tolerances
+        self.M0 = base_matrix(n, kind) * (2.0 ** scale_exp)
         self.merge_pairs = merge_pairs
         self.alphabet = alphabet
         singles = list(all_subsets(n, 2, n))
@@ -208,9 +210,9 @@ class LumpSystem:
 
     def apply(self, st, ev, meta=True):
         hist = st["hist"] + [ev]
-        case = {"n": self.n, "kind": self.kind, "history": hist}
+        case = {"n": self.n, "kind": self.kind, "history": hist, "scale_exp": self.scale_exp}
         hs = hist_str(hist)
-        pre = f"C13|n={self.n}|base={self.kind}|hist={hs}"
+        pre = f"C13|n={self.n}|base={self.kind}" + (f"|scale=2^{self.scale_exp}" if self.scale_exp else "") + f"|hist={hs}"
         vs = []
         # model step
         if ev["op"] == "merge":
@@ -326,7 +328,7 @@ class LumpSystem:
 
 
 def run_history(case):
-    sysm = LumpSystem(case["n"], case["kind"], merge_pairs=False)
+    sysm = LumpSystem(case["n"], case["kind"], merge_pairs=False, scale_exp=case.get("scale_exp", 0))
     st = sysm.initial()
     allv = []
     for ev in case["history"]:
@@ -466,17 +468,19 @@ def run(ctx):
     bounds = []
     exhaustive = True
     distinct_obs = 0
-    plan = [(4, "asym", 3, True), (4, "sym", 2, True), (5, "asym", 2, False)] if not ctx.thorough else \
-           [(4, "asym", 3, True), (4, "sym", 3, True), (5, "asym", 3, False), (5, "sym", 2, True), (6, "asym", 2, False)]
-    for n, kind, depth, pairs in plan:
-        sysm = LumpSystem(n, kind, merge_pairs=pairs)
+    plan = [(4, "asym", 3, True, 0), (4, "sym", 2, True, 0), (5, "asym", 2, False, 0), (4, "asym", 2, False, -34),
+            (4, "sym", 2, False, 27)] if not ctx.thorough else \
+           [(4, "asym", 3, True, 0), (4, "sym", 3, True, 0), (5, "asym", 3, False, 0), (5, "sym", 2, True, 0),
+            (6, "asym", 2, False, 0), (4, "asym", 3, False, -34), (5, "sym", 2, False, 27), (5, "asym", 2, False, -60)]
+    for n, kind, depth, pairs, sexp in plan:
+        sysm = LumpSystem(n, kind, merge_pairs=pairs, scale_exp=sexp)
         r = explorer.bfs(ctx, sysm, depth=depth)
         tot_states += r["states"]
         tot_trans += r["transitions"]
         distinct_obs += r["distinct_observations"]
         rep.add_violations(r["violations"])
         samples.extend(hist_str(h) for h in r["samples"][:2])
-        bounds.append({"n": n, "base": kind, "depth": depth, "merge_pairs": pairs, "events_per_state": len(sysm._events),
+        bounds.append({"n": n, "base": kind, "depth": depth, "merge_pairs": pairs, "scale": f"2^{sexp}", "events_per_state": len(sysm._events),
                        "states": r["states"], "transitions": r["transitions"], "capped": r["capped"]})
         exhaustive &= not r["capped"]
         ctx.log(f"  C13 bfs n={n} base={kind} depth={depth}: states={r['states']} transitions={r['transitions']} "
